@@ -1,8 +1,22 @@
+use vcore::front::{self, Project};
 fn main() {
-  let seed: u64 = std::env::args().nth(1).and_then(|s| s.parse().ok()).unwrap_or(1);
-  let mut rng = vcore::rng::Rng::new(seed);
-  let t = vcore::lsphist::zoo(&mut rng, "AlphaWithAVeryLongSuffix", "Beta", "BetaWithAVeryLongSuffix", true);
-  println!("{t}");
-  let p = vcore::fmtcheck::parse(&t).unwrap();
-  println!("// syntax errors: {:?}", p.syntax_errors);
+  let seed0: u64 = std::env::args().nth(1).and_then(|s| s.parse().ok()).unwrap_or(1);
+  let mut bad = 0;
+  for seed in seed0..seed0 + 200 {
+    let mut rng = vcore::rng::Rng::new(seed);
+    let t = vcore::exprgen::binder_zoo(&mut rng);
+    let p = Project::single("Zoo", &t).with_std();
+    let mut heap = samlang_heap::Heap::new();
+    let c = front::check_project(&mut heap, &p);
+    if c.errors.has_errors() {
+      bad += 1;
+      if bad <= 3 {
+        println!("{t}");
+        for e in c.errors.errors().iter().take(4) {
+          println!("// {}: {}", e.location.pretty_print(&heap), e.to_ide_format(&heap, &c.handles).ide_error);
+        }
+      }
+    }
+  }
+  println!("rejected {bad} of 200");
 }
